@@ -5,6 +5,7 @@ import Frugal.Props.Inst.Params
 import Frugal.Props.Inst.F_facts_bufferContract
 import Frugal.Props.Inst.F_skeleton_encoder
 import Frugal.Props.Inst.F_facts_encodeWritesOnlyOutput
+import Frugal.Props.Inst.F_facts_decodeNeverWritesInput
 namespace Frugal.C16
 open Frugal
 /-- encoding is a function of the value: the model has no other input (map order aside), so
@@ -38,5 +39,11 @@ theorem encoder_model_written_from_this_code : Generated.facts.encoderSkeleton =
     pooled copy of a by-value argument (hack.go, reflect.go) are outside this fact: snapshot oracle. -/
 theorem encoder_writes_only_its_output : Generated.facts.encodeWritesOnlyOutput = true :=
   Instances.facts_encodeWritesOnlyOutput
+
+/-- "decoding never modifies the input buffer": regenerated fact — no function of the decoder assigns
+    to an element or sub-slice of its input, appends to it or copies into it (the harness compares the
+    buffer before and after every decode as well) -/
+theorem decoder_never_writes_its_input : Generated.facts.decodeNeverWritesInput = true :=
+  Instances.facts_decodeNeverWritesInput
 
 end Frugal.C16
